@@ -92,19 +92,17 @@ Fixpoint traces_by_digest (ls : list layer) (trs : list dtrace) : list (digest *
   | _, _ => []
   end.
 
-Definition chk_pull (tab : list (bytes * digest)) (fx : bool) (pre : store) (name : N) (lg : plog)
+Definition chk_pull (tab : list (bytes * digest)) (fx : bool) (ac : authcfg) (pre : store) (name : N) (lg : plog)
            (success : bool) (post : store) (obs : list obs_trace) : bool :=
-  match manifest_of true (pl_manifest lg) with
+  match manifest_of true ac (pl_manifest lg) with
   | None => false
-  | Some mo =>
+  | Some (mo, tok, c0) =>
       let ls := match mo with Some m => all_layers m | None => [] end in
-      let envs := map (fun l => match lookup N.eqb (l_digest l) (pl_blobs lg) with
-                                | Some b => match benv_of true b with Some e => e | None => mkBenv None false (fun _ => []) end
-                                | None => mkBenv None false (fun _ => [])
-                                end) ls in
+      let '(envs, c1) := benvs_of true ac tok ls [] (pl_blobs lg) in
       let '(st, r, trs) := pull (H_of tab) fx go_consts pre name (mkPenv mo envs) in
       let byd := traces_by_digest ls trs in
-      Bool.eqb (match r with PSuccess => true | PFail => false end) success
+      c0 && c1   (* bearer tokens on the requests and the token exchanges are the ones the model makes *)
+      && Bool.eqb (match r with PSuccess => true | PFail => false end) success
       && store_eqb st post
       && forallb (fun o => match lookup N.eqb (fst o) byd with
                            | Some t => let '(oh, og, orq) := snd o in trace_eqb t oh og orq
@@ -124,14 +122,11 @@ Definition chk_prune (pre post : store) : bool := store_eqb (startup_prune pre) 
     verifying what it did not find under its digest name, against the same served responses; the stores after both and
     both results must agree (requests are not compared: the joiner makes none for the shared layer). *)
 Definition run_logged (tab : list (bytes * digest)) (fx : bool) (pre : store) (name : N) (lg : plog) : option (store * bool) :=
-  match manifest_of true (pl_manifest lg) with
+  match manifest_of true (mkAuth [] false) (pl_manifest lg) with
   | None => None
-  | Some mo =>
+  | Some (mo, tok, _) =>
       let ls := match mo with Some m => all_layers m | None => [] end in
-      let envs := map (fun l => match lookup N.eqb (l_digest l) (pl_blobs lg) with
-                                | Some b => match benv_of true b with Some e => e | None => mkBenv None false (fun _ => []) end
-                                | None => mkBenv None false (fun _ => [])
-                                end) ls in
+      let envs := fst (benvs_of true (mkAuth [] false) tok ls [] (pl_blobs lg)) in
       let '(st, r, _) := pull (H_of tab) fx go_consts pre name (mkPenv mo envs) in
       Some (st, match r with PSuccess => true | PFail => false end)
   end.
